@@ -69,10 +69,101 @@ def _fpops(sort, ctx):
                 "FPA_TO_FP_UNSIGNED": z3.fpUnsignedToFP(rm, bv, sort), "FPA_ITE": z3.If(z3.fpLT(x, y), x, y),
                 "FPA_NUM": z3.fpAdd(rm, x, z3.FPVal(1.5, sort, ctx)), "FPA_NAN": z3.fpEQ(x, z3.fpNaN(sort)) if False else None,
                 "FPA_PLUS_INF": z3.fpLT(x, z3.fpPlusInfinity(sort)), "FPA_MINUS_ZERO": z3.fpAdd(rm, x, z3.fpMinusZero(sort)),
+                "FPA_MINUS_INF": z3.fpLT(x, z3.fpMinusInfinity(sort)), "FPA_PLUS_ZERO": z3.fpAdd(rm, x, z3.fpPlusZero(sort)),
+                "FPA_NAN": z3.fpAdd(rm, x, z3.fpNaN(sort)),
                 "FPA_EQ_STRUCT": x == y})
     other = z3.Float32(ctx) if w == 64 else z3.Float64(ctx)
     ops["FPA_TO_FP[fp]"] = z3.fpFPToFP(rm, x, other)
     return {k: v for k, v in ops.items() if v is not None}
+
+
+def _kind_names():
+    return {getattr(z3, k): k for k in dir(z3) if k.startswith("Z3_OP_")}
+
+
+def _subterms(t, out):
+    if z3.is_app(t):
+        if t.num_args() > 0:
+            out.setdefault(t.decl().kind(), t)
+        for ch in t.children():
+            _subterms(ch, out)
+    return out
+
+
+def _harvest(ops, bz, ctx):
+    """Z3 operators that only Z3's own simplifier produces (bvsdiv_i, bvurem_i, ...): run the simplifier and the tactic
+    pipeline BackendZ3.simplify uses over the hand-built terms, and for every declaration kind that appears in the
+    results but is not the root of a hand-built term, build the generic application of that very declaration over fresh
+    constants.  The kinds are harvested from the installed Z3 on every run, not listed by hand."""
+    roots = {t.decl().kind() for t in ops.values() if z3.is_app(t)}
+    seen = {}
+    for t in list(ops.values()):
+        outs = []
+        try:
+            outs.append(z3.simplify(t))
+            if isinstance(t, z3.BoolRef):
+                outs.append(bz._boolref_tactics(t).as_expr())
+        except z3.Z3Exception:
+            continue
+        for o in outs:
+            _subterms(o, seen)
+    names = _kind_names()
+    out = {}
+    for k, t in seen.items():
+        if k in roots or k == z3.Z3_OP_UNINTERPRETED:
+            continue
+        consts = [z3.Const(f"rt_h{i}", ch.sort()) for i, ch in enumerate(t.children())]
+        out[f"harvested.{names.get(k, k)}"] = t.decl()(*consts)
+    return out
+
+
+# op_map entries that are deliberately outside the round trip, with the reason (everything else that op_map maps must be
+# exercised by some family, or the coverage obligation fails)
+NOT_ROUNDTRIPPED = {
+    **{k: "integer arithmetic: Int-sorted constants are not translatable (claripy has no integer sort); op_type_map has no entry"
+       for k in ("Z3_OP_ADD", "Z3_OP_SUB", "Z3_OP_MUL", "Z3_OP_DIV", "Z3_OP_IDIV", "Z3_OP_MOD", "Z3_OP_REM", "Z3_OP_UMINUS",
+                 "Z3_OP_GE", "Z3_OP_GT", "Z3_OP_LE", "Z3_OP_LT")},
+    "Z3_OP_IFF": "Z3 4.13 represents Boolean equivalence as Z3_OP_EQ (covered); the kind is never produced",
+    "Z3_OP_INTERNAL": "not an operator",
+    "Z3_OP_REPEAT": "claripy never emits repeat and Z3's simplifier does not introduce it",
+}
+
+
+def covered_kinds(tier="quick"):
+    bz, ctx = _ctx()
+    fams = [_bvops(w, ctx) for w in (1, 8, 64)] + [_boolops(ctx), _fpops(z3.Float32(ctx), ctx), _fpops(z3.Float64(ctx), ctx)]
+    kinds = {}
+    for ops in fams:
+        ops = dict(ops)
+        ops.update(_harvest(ops, bz, ctx))
+        for t in ops.values():
+            _subterms(t, kinds)
+            if z3.is_app(t):
+                kinds.setdefault(t.decl().kind(), t)
+            for ch in (t.children() if z3.is_app(t) else []):
+                if z3.is_app(ch):
+                    kinds.setdefault(ch.decl().kind(), ch)
+    return kinds
+
+
+def ob_coverage(tier="quick"):
+    """every Z3 operator kind that the real op_map maps to a claripy operation is exercised by a round-trip obligation
+    (hand-built or harvested generic term), or is listed in NOT_ROUNDTRIPPED with the reason"""
+    import claripy
+    from claripy.backends import backend_z3 as B
+    res = paths.Result()
+    kinds = covered_kinds(tier)
+    for k, v in B.op_map.items():
+        if v is None:
+            continue
+        res.paths += 1
+        res.vcs += 1
+        kk = getattr(z3, k, None)
+        if kk is None or kk in kinds or k in NOT_ROUNDTRIPPED:
+            continue
+        res.status = "undecided"
+        res.reason = f"op_map maps {k} -> {v!r} but no round-trip obligation exercises that kind (extend vf/contracts/z3rt.py)"
+    return res
 
 
 def _equiv(t, t2, ctx, timeout_ms):
@@ -109,6 +200,7 @@ def ob_roundtrip(family, w=8, tier="quick"):
         ops = _boolops(ctx)
     else:
         ops = _fpops(z3.Float32(ctx) if family == "fp32" else z3.Float64(ctx), ctx)
+    ops.update(_harvest(ops, bz, ctx))
     from vf import common
     known = {k for f in common.findings_for("C09") for k in f.get("kinds", [])}
     for name, t in ops.items():
